@@ -19,6 +19,7 @@ mod p08;
 mod p09;
 mod items;
 mod p11;
+mod p12;
 mod rsim;
 mod p13;
 
@@ -59,6 +60,10 @@ macro_rules! families {
             }
             "C11" => {
                 type $f = p11::C11;
+                $body
+            }
+            "C12" => {
+                type $f = p12::C12;
                 $body
             }
             "C13" => {
